@@ -394,12 +394,14 @@ tdigest<T, A> tdigest<T, A>::deserialize(std::istream& is, const A& allocator) {
     throw std::invalid_argument("preamble longs mismatch: expected " + std::to_string(expected_preamble_longs) + ", actual " + std::to_string(preamble_longs));
   }
   read<uint16_t>(is); // unused
+  if (!is.good()) throw std::runtime_error("error reading from std::istream");
 
   if (is_empty) return tdigest(k, allocator);
 
   const bool reverse_merge = flags_byte & (1 << flags::REVERSE_MERGE);
   if (is_single_value) {
     const T value = read<T>(is);
+    if (!is.good()) throw std::runtime_error("error reading from std::istream");
     return tdigest(reverse_merge, k, value, value, vector_centroid(1, centroid(value, 1), allocator), 1, vector_t(allocator));
   }
 
@@ -408,10 +410,25 @@ tdigest<T, A> tdigest<T, A>::deserialize(std::istream& is, const A& allocator) {
 
   const T min = read<T>(is);
   const T max = read<T>(is);
-  vector_centroid centroids(num_centroids, centroid(0, 0), allocator);
-  if (num_centroids > 0) read(is, centroids.data(), num_centroids * sizeof(centroid));
-  vector_t buffer(num_buffered, 0, allocator);
-  if (num_buffered > 0) read(is, buffer.data(), num_buffered * sizeof(T));
+  if (!is.good()) throw std::runtime_error("error reading from std::istream");
+  // the stream length is unknown: read in bounded chunks so that a corrupted count cannot force a huge allocation up front
+  const size_t chunk = 4096;
+  vector_centroid centroids(allocator);
+  for (size_t done = 0; done < num_centroids; ) {
+    const size_t n = std::min<size_t>(chunk, num_centroids - done);
+    centroids.resize(done + n, centroid(0, 0));
+    read(is, centroids.data() + done, n * sizeof(centroid));
+    if (!is.good()) throw std::runtime_error("error reading from std::istream");
+    done += n;
+  }
+  vector_t buffer(allocator);
+  for (size_t done = 0; done < num_buffered; ) {
+    const size_t n = std::min<size_t>(chunk, num_buffered - done);
+    buffer.resize(done + n, 0);
+    read(is, buffer.data() + done, n * sizeof(T));
+    if (!is.good()) throw std::runtime_error("error reading from std::istream");
+    done += n;
+  }
   uint64_t weight = 0;
   for (const auto& c: centroids) weight += c.get_weight();
   return tdigest(reverse_merge, k, min, max, std::move(centroids), weight, std::move(buffer));
@@ -481,6 +498,7 @@ tdigest<T, A> tdigest<T, A>::deserialize_compat(std::istream& is, const A& alloc
   // this method was called because the first three bytes were zeros
   // so read one more byte to see if it looks like the reference implementation format
   const auto type = read<uint8_t>(is);
+  if (!is.good()) throw std::runtime_error("error reading from std::istream");
   if (type != COMPAT_DOUBLE && type != COMPAT_FLOAT) {
     throw std::invalid_argument("unexpected sketch preamble: 0 0 0 " + std::to_string(type));
   }
@@ -489,12 +507,14 @@ tdigest<T, A> tdigest<T, A>::deserialize_compat(std::istream& is, const A& alloc
     const auto max = read_big_endian<double>(is);
     const auto k = static_cast<uint16_t>(read_big_endian<double>(is));
     const auto num_centroids = read_big_endian<uint32_t>(is);
-    vector_centroid centroids(num_centroids, centroid(0, 0), allocator);
+    if (!is.good()) throw std::runtime_error("error reading from std::istream");
+    vector_centroid centroids(allocator);
     uint64_t total_weight = 0;
-    for (auto& c: centroids) {
+    for (uint32_t i = 0; i < num_centroids; ++i) {
       const W weight = static_cast<W>(read_big_endian<double>(is));
       const auto mean = read_big_endian<double>(is);
-      c = centroid(mean, weight);
+      if (!is.good()) throw std::runtime_error("error reading from std::istream");
+      centroids.push_back(centroid(mean, weight));
       total_weight += weight;
     }
     return tdigest(false, k, min, max, std::move(centroids), total_weight, vector_t(allocator));
@@ -507,12 +527,14 @@ tdigest<T, A> tdigest<T, A>::deserialize_compat(std::istream& is, const A& alloc
   // they can be derived from k in the constructor
   read<uint32_t>(is); // unused
   const auto num_centroids = read_big_endian<uint16_t>(is);
-  vector_centroid centroids(num_centroids, centroid(0, 0), allocator);
+  if (!is.good()) throw std::runtime_error("error reading from std::istream");
+  vector_centroid centroids(allocator);
   uint64_t total_weight = 0;
-  for (auto& c: centroids) {
+  for (uint16_t i = 0; i < num_centroids; ++i) {
     const W weight = static_cast<W>(read_big_endian<float>(is));
     const auto mean = read_big_endian<float>(is);
-    c = centroid(mean, weight);
+    if (!is.good()) throw std::runtime_error("error reading from std::istream");
+    centroids.push_back(centroid(mean, weight));
     total_weight += weight;
   }
   return tdigest(false, k, min, max, std::move(centroids), total_weight, vector_t(allocator));
